@@ -150,3 +150,45 @@ Proof.
   induction HF as [|a b l1 l2 Hab _ IH]; [reflexivity|]. cbn [map]. f_equal; [|exact IH].
   apply norm_eq_alpha. exact Hab.
 Qed.
+
+(* ------------------------------------------------------------------ *)
+(* with failing AddFrame calls                                          *)
+
+Theorem anim_error_roundtrip : anim_error_roundtrip_statement true.
+Proof.
+  intros rt_ll rt_ly W H opts frames oracle fails maxf has_meta simple st0 stf acc out
+         Hcodec Hdims (Hll & Hmx & Hloop) Hwf Hnew Hrun Hclose.
+  destruct (new_encoder_facts W H opts st0 Hnew)
+    as (HW & HH & EW & EH & Erecs & Efc & Eprev & Eloop & Ell & Emx & Eq).
+  rewrite <- (clamp_loop_id (eo_loop opts) Hloop), <- Eloop.
+  unfold same_show.
+  apply (generic_error_roundtrip norm_px norm_blend norm_zero rt_ll rt_ly repaired eq_refl eq_refl false)
+    with (maxf := maxf) (oracle := oracle) (fails := fails) (has_meta := has_meta) (simple := simple)
+         (st0 := st0) (frames := frames) (stf := stf); try assumption; try reflexivity.
+  - intros via r Hwfi Hl. unfold decoded. destruct (m_lossy r); [specialize (Hl eq_refl); discriminate|].
+    destruct (Hcodec (m_img r) Hwfi) as (Hw & Hh & HF). repeat split; assumption.
+  - intros Habs. rewrite Ell, Hll in Habs. discriminate.
+  - intros _. rewrite Ell, Emx. split; assumption.
+Qed.
+
+Theorem anim_error_alpha : anim_error_alpha_statement true.
+Proof.
+  intros rt_ll rt_ly W H opts frames oracle fails maxf has_meta simple st0 stf acc out
+         Hll Hly Hdims (Hq & Hloop) Hwf Hnew Hrun Hclose.
+  destruct (new_encoder_facts W H opts st0 Hnew)
+    as (HW & HH & EW & EH & Erecs & Efc & Eprev & Eloop & Ell & Emx & Eq).
+  rewrite <- (clamp_loop_id (eo_loop opts) Hloop), <- Eloop.
+  apply (generic_error_roundtrip alpha_only alpha_blend) with (rt_ll := rt_ll) (rt_ly := rt_ly)
+    (lossy_fine := true) (maxf := maxf) (oracle := oracle) (fails := fails) (has_meta := has_meta)
+    (simple := simple) (st0 := st0) (frames := frames) (stf := stf);
+    try assumption; try reflexivity.
+  - intros p q Hp Hq'. apply alpha_only_eq. lia.
+  - intros via r Hwfi _. unfold decoded. destruct (m_lossy r).
+    + cbn [repaired fix_alph orb].
+      destruct (Hly (m_img r) Hwfi) as (Hw & Hh & Hpa & _). repeat split; try assumption.
+      apply map_pa_Forall2. exact Hpa.
+    + destruct (Hll (m_img r) Hwfi) as (Hw & Hh & HF). repeat split; try assumption.
+      eapply Forall2_weaken; [|exact HF]. intros a b Hab. apply alpha_only_eq. apply norm_eq_alpha. exact Hab.
+  - intros _ md p t Hs. apply alpha_only_eq. unfold pixels_similar in Hs. lia.
+  - discriminate.
+Qed.
